@@ -65,6 +65,7 @@ func openDB(kind, dir string) (api.NodeDB, error) {
 
 type hashTable struct {
 	ids map[hash.Hash]int
+	rev []hash.Hash // id-1 -> hash
 }
 
 func (h *hashTable) id(x hash.Hash) int {
@@ -76,6 +77,7 @@ func (h *hashTable) id(x hash.Hash) int {
 	}
 	i := len(h.ids) + 1
 	h.ids[x] = i
+	h.rev = append(h.rev, x)
 	return i
 }
 
@@ -881,11 +883,18 @@ func genCase(r *hlib.Rng, nver int, res *hlib.Result) []string {
 	removedKV := map[string]string{} // previously removed key -> old value (for re-insertion)
 	cont := map[string]contents{}
 	earliest := -1
-	twoState := r.Chance(1, 10) // sometimes finalize two roots of one type (badger only)
+	// In a quarter of the cases two sibling roots of the state type are finalized in the same
+	// version (badger only; pathbadger refuses): one is continued, the other stays a lone root that
+	// inherits nodes of older versions which the continued line still needs when it is pruned.
+	twoState := r.Chance(1, 4)
 	for i := 0; i < nver; i++ {
 		// --- candidates of the state type
 		ncand := 1 + r.Intn(3)
+		if twoState && ncand < 2 {
+			ncand = 2
+		}
 		var cands []string
+		var firstWrites []string
 		for c := 0; c < ncand; c++ {
 			src := prevState
 			k := r.Intn(100)
@@ -943,6 +952,19 @@ func genCase(r *hlib.Rng, nver int, res *hlib.Result) []string {
 				default:
 					ws = append(ws, key+"="+vals[r.Intn(len(vals))])
 				}
+			}
+			if twoState && c > 0 && src == prevState && len(firstWrites) > 0 && r.Chance(1, 2) {
+				// a sibling that rewrites the same keys with other values: both siblings replace
+				// the same path and inherit everything else from the older root
+				ws = nil
+				for _, w := range firstWrites {
+					k := strings.SplitN(w, "=", 2)[0]
+					ws = append(ws, k+"="+"s"+vals[r.Intn(len(vals))])
+				}
+				res.Count("gen:sibling-same-keys")
+			}
+			if c == 0 {
+				firstWrites = ws
 			}
 			wl := "-"
 			if len(ws) > 0 {
@@ -1009,7 +1031,7 @@ func genCase(r *hlib.Rng, nver int, res *hlib.Result) []string {
 		// --- finalize
 		pick := cands[r.Intn(len(cands))]
 		fl := []string{pick}
-		if twoState && len(cands) > 1 && r.Chance(1, 2) {
+		if twoState && len(cands) > 1 && r.Chance(2, 3) {
 			other := cands[r.Intn(len(cands))]
 			if other != pick {
 				fl = append(fl, other)
@@ -1065,6 +1087,7 @@ func main() {
 	replay := flag.String("replay", "", "replay file (one op per line)")
 	corpus := flag.String("corpus", "", "corpus dir, run first")
 	nomodel := flag.Bool("no-badger-model", false, "skip the badger bookkeeping model")
+	prunerCases := flag.Int("pruner-cases", 200, "scripted histories for the real abci state pruner")
 	flag.Parse()
 	if *nomodel {
 		badgerModelEnabled = false
@@ -1129,6 +1152,9 @@ func main() {
 		res.Fail(hlib.Failure{Kind: v.kind, Detail: v.detail, Case: []string{"selftest"}, Sig: v.sig})
 	}
 	res.Count("selftest:masking")
+	if *replay == "" {
+		prunerPhase(hlib.NewRng(*seed+77), *prunerCases, res)
+	}
 	rng := hlib.NewRng(*seed)
 	seen := map[string]bool{}
 	sigs := map[string]int{}
